@@ -69,6 +69,18 @@ def run(pid, tier):
         else:
             s['chunks'] = chunked(rng, stream, rng.randrange(3)) + ([[]] if rng.random() < 0.5 else [])
         scen.append(s)
+    # (c) tight caller buffers and exactly filled static heaps: quoted strings of every length into a 4-byte buffer;
+    #     undefined headers of varying length (their text goes to the error-info heap) interleaved with error reads
+    ttab = [[list(b'T'), 1], [list(b'E?'), 2]]
+    tscr = [[1, 1, 0, [['p', 'tshort', False]]], [2, 1, 0, [['q']]]]
+    for n in range(0, 9):
+        for qt in (34, 39):
+            scen.append(dict(table=ttab, scripts=tscr, buf=64, mode='I', chunks=[list(b'T ') + [qt] + [97] * n + ([qt, qt] if n % 3 == 0 else []) + [qt, 10]], meta=dict(hdrs=[])))
+    for i in range(200 if tier == 'quick' else 2000):
+        msgs = []
+        for k in range(rng.randint(3, 7)):
+            msgs.append(list(b'E?\n') if rng.random() < 0.35 else [65 + rng.randrange(26) for _ in range(rng.randint(1, 11))] + [10])
+        scen.append(dict(table=ttab, scripts=tscr, buf=64, qcap=rng.choice([2, 4]), heap=rng.choice([6, 8, 9, 12, 16, 20]), mode='I', chunks=msgs, meta=dict(hdrs=[])))
     for b in BUILDS:
         obs = pc.execute(rep, scen, b, 'C01' + b)
         if b == 'default':
